@@ -34,7 +34,11 @@ demo_src = os.path.join(src, os.path.basename(m.group(1).rstrip("/"))) if m else
 demo_dst = m.group(2).replace(seedroot, copy) if m else None
 runs = re.findall(r"(go (?:test|run)[^\n]*)", howto)
 run_cmd = [r for r in runs if "go test" in r and "-run" in r] or [r for r in runs if "-run" in r or "go run" in r]
-run_cmd = (run_cmd[-1] if run_cmd else runs[-1]).replace(seedroot, copy).strip().rstrip("`").rstrip("\\").strip()
+# several candidate commands: prefer the one the HOWTO runs under the race detector (the primary one when both are
+# listed), else the last; drop prose punctuation that follows a command quoted inside a sentence ("... ./pkg/ ).")
+_race = [r for r in run_cmd if "-race" in r]
+run_cmd = (_race[0] if _race else (run_cmd[-1] if run_cmd else runs[-1])).replace(seedroot, copy).strip().rstrip("`").rstrip("\\").strip()
+run_cmd = re.sub(r"\s*\)?\.?$", "", run_cmd) if re.search(r"\s\)\.?$", run_cmd) else run_cmd
 run_cmd = "cd %s && %s" % (copy, run_cmd)
 if "CGO_ENABLED" in howto and "CGO_ENABLED" not in run_cmd:
     run_cmd = "CGO_ENABLED=1 " + run_cmd
